@@ -284,6 +284,18 @@ package keeper
 //@ ensures [stored_snapshot_data_are_the_digest_inputs] err == nil ==> has(bridge.AttestSnapshotDataMap, bytes(ret(EncodeOracleAttestationData, 0))) && bridge.AttestSnapshotDataMap[bytes(ret(EncodeOracleAttestationData, 0))].Timestamp == unixms(timestamp) && bridge.AttestSnapshotDataMap[bytes(ret(EncodeOracleAttestationData, 0))].AttestationTimestamp == unixms(blocktime(ctx)) && bridge.AttestSnapshotDataMap[bytes(ret(EncodeOracleAttestationData, 0))].PrevReportTimestamp == arg(EncodeOracleAttestationData, previousTimestamp) && bridge.AttestSnapshotDataMap[bytes(ret(EncodeOracleAttestationData, 0))].NextReportTimestamp == arg(EncodeOracleAttestationData, nextTimestamp)
 //@ ensures [one_signature_slot_per_member_of_the_current_set] err == nil ==> has(bridge.SnapshotToAttestationsMap, bytes(ret(EncodeOracleAttestationData, 0))) && len(bridge.SnapshotToAttestationsMap[bytes(ret(EncodeOracleAttestationData, 0))].Attestations) == len(bridge.BridgeValset.BridgeValidatorSet)
 
+// ---- snapshots made at the end of a block (C02, C15) ----
+// Every report aggregated in this block gets a snapshot of its latest aggregate (the one not after block time + 1 s).
+// These snapshots are made by the chain itself: they are not external requests, so the per-block limit on requested
+// attestations, which exists to refuse users' transactions, can never make the end of a block fail.
+//@ func (k Keeper).CreateNewReportSnapshots(ctx) (err)
+//@ requires [block_time_not_before_1970] unixms(blocktime(ctx)) >= 0
+//@ requires [stored_aggregate_timestamps_fit_int64] forall q bytes :: forall t int :: has(oracle.Aggregates, pair(q, t)) ==> t < 9223372036854775808
+//@ modifies bridge.*, H_*, A_*
+//@ ensures [automatic_snapshots_are_not_external_requests] called(CreateSnapshot) ==> !arg(CreateSnapshot, isExternalRequest)
+//@ loop 0 "for _, report := range reports"
+//@ loop 0 invariant [automatic_snapshots_are_not_external_requests] called(CreateSnapshot) ==> !arg(CreateSnapshot, isExternalRequest)
+
 // ---- how far the validator set has moved since the last checkpoint (C16) ----
 // The shift is the sum over all addresses of the ABSOLUTE difference between the old and the new power (gross power
 // moved: a gain of one validator does not cancel the loss of another), relative to the old total, with six decimals.
